@@ -172,6 +172,16 @@ Proof.
   induction l as [|c r IH]; intros col Hl; [reflexivity|].
   destruct col as [|k]; [simpl in Hl; lia|]. simpl. rewrite IH; [reflexivity | simpl in Hl; lia].
 Qed.
+Lemma wrap_nobs w l : forall col, nobs l -> nobs (wrap w col l).
+Proof.
+  induction l as [|c r IH]; intros col Hl; [reflexivity|]. apply nobs_inv in Hl. destruct Hl as [Hc Hr].
+  destruct col as [|k]; simpl.
+  - apply nobs_cons; [exact Hc|]. apply nobs_cons; [reflexivity|]. apply IH. exact Hr.
+  - apply nobs_cons; [exact Hc|]. apply IH. exact Hr.
+Qed.
+Lemma pg_base64_in p : bytea_in (pg_base64 p) = Some (pg_base64 p).
+Proof. apply bytea_in_nobs. apply wrap_nobs. apply base64_nobs. Qed.
+
 Lemma pg_base64_short p : (List.length (base64 p) < 76)%nat -> pg_base64 p = base64 p.
 Proof. intros Hl. unfold pg_base64. apply wrap_short. lia. Qed.
 
@@ -306,6 +316,13 @@ Proof.
   destruct prev as [p|]; [|reflexivity].
   rewrite (pg_base64_short p (Hp p eq_refl)). rewrite (bytea_in_nobs _ (base64_nobs p)).
   f_equal. repeat rewrite <- app_assoc. reflexivity.
+Qed.
+
+(* the insert is accepted (the cast does not raise) whenever the idempotency key is verbatim, whatever the predecessor *)
+Lemma sql_preimage_defined prev l : go_verbatim (h_ik l) = true -> sql_preimage prev l <> None.
+Proof.
+  intros Hik. unfold sql_preimage. rewrite (sql_text_body l Hik). destruct prev as [p|]; [|discriminate].
+  rewrite pg_base64_in. discriminate.
 Qed.
 
 (* the trigger never looks at the schema version, nor at the incoming hash column *)
